@@ -420,12 +420,30 @@ def run_variant(ctx, v, model, n_targets, results):
         if len(v["hosts"]) > 1 and rng.random() < 0.45: host = rng.choice(HOSTS[:9])        # well-formed names, so that half of the traffic reaches the mapping stage
         full = tg + b"?i=%d" % i
         reqs.append((i, host, tg, full, b"GET " + full + b" HTTP/1.1\r\nHost: " + host + b"\r\nConnection: close\r\n\r\n"))
+    # the same targets over HTTP/2 (:path / :authority), every third one: ids from H2BASE up
+    import h2c
+    H2BASE = 1000000
+    h2reqs = []
+    for (i, host, tg, full, raw) in reqs[::3][:120 if len(reqs) < 1000 else 600]:
+        h2reqs.append((H2BASE + i, host, tg, tg + b"?i=%d" % (H2BASE + i), None))
+    def h2fetch(rq):
+        try:
+            c = h2c.Conn(s.port, timeout=4.0)
+            try: st = c.wait([c.send_request(b"GET", rq[3], authority=rq[1])])[0]
+            finally: c.close()
+        except Exception:
+            return b""
+        if not st or not st.get("headers"): return b""
+        code = dict(st["headers"]).get(b":status", b"0")
+        return b"HTTP/1.1 " + code + b" h2\r\n\r\n" + st["body"]
     s.start()
     try:
         with ThreadPoolExecutor(8) as ex:
             resp = list(ex.map(lambda r: fetch(s.port, r[4]), reqs))
+            resp += list(ex.map(h2fetch, h2reqs))
     finally:
         rc = s.stop()
+    reqs = reqs + h2reqs
     blocks = parse_log(s.log())
     dirs = t.dirs()
     lines = []; idx = []
@@ -435,13 +453,14 @@ def run_variant(ctx, v, model, n_targets, results):
         lines.append(model_line(v, t, dirs, b["auth"].encode("latin-1"), full)); idx.append(i)
     _, out_m, err_m = vlib.run_lines_sharded(model, lines) if lines else (0, [], "")
     pred = dict(zip(idx, out_m))
-    st = dict(requests=len(reqs), logged=len(idx), served=0, refused=0, disagreements=0, canary=0, statuses={})
+    st = dict(requests=len(reqs), over_http2=len(h2reqs), logged=len(idx), served=0, refused=0, disagreements=0, canary=0, statuses={})
     R = t.root.encode()
     for (i, host, tg, full, raw), data in zip(reqs, resp):
         code = status_of(data); body = body_of(data)
         st["statuses"][str(code)] = st["statuses"].get(str(code), 0) + 1
-        what = "%s: GET %r with Host %r" % (v["name"], full, host)
-        rep = dict(kind="system", variant=v["name"], conf=v["conf"], request=raw.decode("latin-1"), status=code, body=body[:200].decode("latin-1"))
+        what = "%s: GET %r with %s %r" % (v["name"], full, "Host" if raw else "HTTP/2 :authority", host)
+        rep = dict(kind="system", variant=v["name"], conf=v["conf"], request=raw.decode("latin-1") if raw else "HTTP/2 GET %s authority %s" % (full.decode("latin-1"), host.decode("latin-1")),
+                   status=code, body=body[:200].decode("latin-1"))
         if code == 200: st["served"] += 1
         else: st["refused"] += 1
         # --- the property itself
